@@ -32,7 +32,7 @@ def _pa(prop):
     import verdict_gen
     return (f"---- MODULE MC_pa_{prop} ----\nEXTENDS MC_ParseAttr\nmcLims == {verdict_gen.lims_tla()}\n====\n",
             "SPECIFICATION Spec\nCONSTANTS\n Lims <- mcLims\n Tier = \"quick\"\n NRand = {q}\n Prop = \"" + prop + "\"\n IterMatchImplemented = TRUE\n"
-            "INVARIANTS Consistent Inv_ParserIsCatalogue\nCHECK_DEADLOCK FALSE\n", {"quick": 20, "thorough": 400})
+            "INVARIANTS Consistent Inv_ParserIsCatalogue\nCHECK_DEADLOCK FALSE\n", {"quick": 20, "thorough": 100})
 
 
 def _et(prop):
@@ -40,7 +40,7 @@ def _et(prop):
     return (f"---- MODULE MC_et_{prop} ----\nEXTENDS MC_EnumTools\nmcLims == {verdict_gen.lims_tla()}\nmcTMin == -128\n====\n",
             "SPECIFICATION Spec\nCONSTANTS\n Lims <- mcLims\n Tier = \"quick\"\n NRand = {q}\n Prop = \"" + prop + "\"\n IterMatchImplemented = TRUE\n"
             " UsePinnedNeg = FALSE\n UsePinnedOffset = FALSE\n TMin <- mcTMin\n TMax = 127\n"
-            "INVARIANTS Consistent Inv_Verdict Inv_Items\nCHECK_DEADLOCK FALSE\n", {"quick": 10, "thorough": 200})
+            "INVARIANTS Consistent Inv_Verdict Inv_Items\nCHECK_DEADLOCK FALSE\n", {"quick": 10, "thorough": 60})
 
 
 for _p in ("C10", "C11", "C12", "C13", "C14"):
